@@ -143,6 +143,19 @@ pub fn gen_queries(rng: &mut Rng, g: &Gen, nq: usize) -> Vec<Vec<MerkleHash>> {
         let mut q = Vec::new();
         if nonempty.is_empty() || rng.chance(1, 8) { for _ in 0..rng.range(0, 4) { q.push(rand_hash(rng)); } out.push(q); continue; }
         let c = *rng.pick(&nonempty);
+        if rng.chance(1, 6) {
+            // a run that ends at the xorb's last chunk, continued with what FOLLOWS the xorb in the serialized xorb section
+            // (records are ordered by xorb hash): the next record's header starts with that xorb's hash, then come its chunks
+            let start = if rng.chance(1, 3) { 0 } else { rng.below(c.chunks.len() as u64) as usize };
+            for e in &c.chunks[start..] { q.push(e.chunk_hash); }
+            let next = g.cas.iter().filter(|x| x.metadata.cas_hash > c.metadata.cas_hash).min_by_key(|x| x.metadata.cas_hash);
+            match next {
+                Some(n) => { q.push(n.metadata.cas_hash); for e in n.chunks.iter().take(rng.below(3) as usize) { q.push(e.chunk_hash); } }
+                None => q.push(c.metadata.cas_hash),
+            }
+            out.push(q);
+            continue;
+        }
         let start = match rng.below(4) { 0 => 0, 1 => c.chunks.len() - 1, _ => rng.below(c.chunks.len() as u64) as usize };
         let len = match rng.below(4) { 0 => 1, 1 => c.chunks.len() - start + rng.below(3) as usize, _ => rng.range(1, (c.chunks.len() - start) as u64 + 2) as usize };
         for i in 0..len { q.push(if start + i < c.chunks.len() { c.chunks[start + i].chunk_hash } else { rand_hash(rng) }); }
